@@ -80,7 +80,9 @@ static void read_routes (int format, int ch, int variant)
 	cap = N + 50 ;
 	/* reference: virtual I/O */
 	memset (&ref, 0, sizeof (ref)) ; memset (&si, 0, sizeof (si)) ; if (raw) { si.format = format ; si.channels = ch ; si.samplerate = 8000 ; } m.pos = 0 ;
+	{	int vb [256], va [256], nvb = fd_list (vb, 256), nva ;
 	s = sf_open_virtual (&MVIO, SFM_READ, &si, &m) ; if (s) { if (si.channels < 1 || si.channels > 64) { sf_close (s) ; mv_free (&m) ; return ; } observe (s, &si, &ref, 0, cap) ; sf_close (s) ; } else ref.err = sf_error (NULL) ;
+	nva = fd_list (va, 256) ; if (!same_fds (vb, nvb, va, nva)) vh_viol (vh_key ("C14|fd-table|virtual-io|%s", fn), "the set of open descriptors changed across sf_open_virtual / sf_close (the virtual route owns no descriptor)") ; }
 	vh_stat ("files", 1) ;
 	snprintf (path, sizeof (path), "%s/r_%d.dat", scratch, (int) getpid ()) ;
 	/* path */
@@ -218,6 +220,27 @@ static void refused_fd_opens (void)
 	unlink (path) ;
 }
 
+/* very small files embedded at an offset, with little or nothing behind them: the same bytes must open the same way as a stand-alone file */
+static void tiny_embedded (int format, int ch)
+{	static const int Ns [] = { 0, 1, 8, 19 }, offs [] = { 37, 64 }, trail [] = { 0, 5, 100 } ; int a, b, c ; const char *fn = vh_fname (format) ; char path [400] ; static unsigned char junk [200] ;
+	snprintf (path, sizeof (path), "%s/tiny_%d.dat", scratch, (int) getpid ()) ; for (a = 0 ; a < 200 ; a++) junk [a] = (unsigned char) (a * 29 + 3) ;
+	for (a = 0 ; a < 4 ; a++)
+	{	MEMF m ; SNDFILE *s ; SF_INFO si ; OBS ref, o ; short d [64] ; int i ; for (i = 0 ; i < 64 ; i++) d [i] = (short) (i * 400 - 9000) ;
+		memset (&m, 0, sizeof (m)) ; s = vh_open_w (&m, format, ch, 8000, NULL) ; if (!s) return ; if (Ns [a]) sf_writef_short (s, d, Ns [a]) ; sf_close (s) ;
+		memset (&ref, 0, sizeof (ref)) ; memset (&si, 0, sizeof (si)) ; m.pos = 0 ; s = sf_open_virtual (&MVIO, SFM_READ, &si, &m) ; if (s) { observe (s, &si, &ref, 0, 80) ; sf_close (s) ; } else ref.err = sf_error (NULL) ;
+		for (b = 0 ; b < 2 ; b++) for (c = 0 ; c < 3 ; c++)
+		{	int fd ; put_file (path, junk, offs [b], m.d, (long) m.len, junk + 50, trail [c]) ;
+			fd = open (path, O_RDONLY) ; if (fd < 0) continue ; lseek (fd, offs [b], SEEK_SET) ;
+			memset (&o, 0, sizeof (o)) ; memset (&si, 0, sizeof (si)) ; s = sf_open_fd (fd, SFM_READ, &si, 0) ; if (s) { observe (s, &si, &o, 0, 80) ; sf_close (s) ; } else o.err = sf_error (NULL) ;
+			close (fd) ; vh_stat ("tiny_embedded_opens", 1) ;
+			if (ref.opened != o.opened) vh_viol (vh_key ("C14|open-outcome|%s|fd-embedded|tiny-file", fn), "%d frames (%ld bytes) at offset %d with %d bytes behind: stand-alone %s (err %d), embedded %s (err %d: %s)", Ns [a], (long) m.len, offs [b], trail [c], ref.opened ? "opens" : "fails", ref.err, o.opened ? "opens" : "fails", o.err, o.opened ? "" : sf_strerror (NULL)) ;
+			else if (o.opened && (ref.si.frames != o.si.frames || ref.got [0] != o.got [0] || ref.data [0] != o.data [0]) && trail [c] == 0) vh_viol (vh_key ("C14|samples|%s|fd-embedded|tiny-file", fn), "%d frames at offset %d: frames %lld/%lld, items read %ld/%ld", Ns [a], offs [b], (long long) ref.si.frames, (long long) o.si.frames, ref.got [0], o.got [0]) ;
+			}
+		mv_free (&m) ;
+		}
+	unlink (path) ;
+}
+
 int main (int argc, char **argv)
 {	int f, c, v, rep ; const char *sd ;
 	vh_init (argc, argv, "c14_routes", "C14") ;
@@ -236,6 +259,7 @@ int main (int argc, char **argv)
 			if (v == 1) vh_sample ("%s ch=%d: one generated file (variant bits: 1 strings, 2 60 KB chunk before the audio, 4 truncated tail, 8 damaged header byte) read via virtual I/O, path, fd close_desc 0/1, fd at offsets 1/7/4096 inside junk, pipe", vh_fname (format), c) ;
 			read_routes (format, c, variant) ;
 			}
+		if ((vh_fmts [f].major == SF_FORMAT_WAV || vh_fmts [f].major == SF_FORMAT_WAVEX || vh_fmts [f].major == SF_FORMAT_AIFF || vh_fmts [f].major == SF_FORMAT_AU) && vh_sample_granular (format) && c == 1 && vh_case ("%s tiny embedded files", vh_fname (format))) { vh_distinct (vh_fnv (0, &format, 4) ^ 0x7171) ; tiny_embedded (format, 1) ; }
 		for (rep = 0 ; rep < (vh_thorough ? 24 : 8) ; rep++) if (vh_case ("%s ch=%d write routes rep=%d", vh_fname (format), c, rep)) { vh_distinct (vh_fnv (0, &format, 4) ^ ((uint64_t) c << 33) ^ 0x77 ^ vh_rs) ; write_routes (format, c) ; }
 		}
 	rmdir (scratch) ;
